@@ -274,6 +274,7 @@ CHECKS = {
                       "time is symbolic.",
         "runs": [
             {"harness": "HarnessC15Poll", "grid": {"op": [0, 1]}, "params": {"polls": 3}, "reach": ["c15:poll-returned"], "tier": "quick"},
+            {"harness": "HarnessC15Poll", "params": {"op": 1, "polls": 3, "partial": 1}, "reach": ["c15:poll-returned"], "tier": "quick"},
             {"harness": "HarnessC15Poll", "grid": {"op": [0, 1]}, "params": {"polls": 5}, "reach": ["c15:poll-returned"], "tier": "thorough", "qtimeout": 300},
             {"harness": "HarnessC15Block", "grid": {"op": [0, 1, 2, 3, 4, 5, 6, 7, 8], "ctxmode": [0, 1]}, "reach": ["c15:operation-returned"]},
         ],
@@ -291,8 +292,8 @@ CHECKS = {
                       "frame size <= 3*limit+64, <= 1 / 2 predecessors, <= 2 arbitrary fragments, <= 1 / 2 transient timeouts. An envelope is measured by its wire "
                       "footprint (text + one delimiter byte).",
         "runs": [
-            {"harness": "HarnessC16Budget", "params": {"pre": 1, "timeouts": 1, "frag": 2}, "reach": ["c16:oversized", "c16:within-limit"], "tier": "quick"},
-            {"harness": "HarnessC16Budget", "params": {"pre": 2, "timeouts": 2, "frag": 3}, "reach": ["c16:oversized", "c16:within-limit"], "tier": "thorough", "qtimeout": 300},
+            {"harness": "HarnessC16Budget", "grid": {"trace": [0, 1]}, "params": {"pre": 1, "timeouts": 1, "frag": 2}, "reach": ["c16:oversized", "c16:within-limit"], "tier": "quick"},
+            {"harness": "HarnessC16Budget", "grid": {"trace": [0, 1]}, "params": {"pre": 2, "timeouts": 2, "frag": 3}, "reach": ["c16:oversized", "c16:within-limit"], "tier": "thorough", "qtimeout": 300},
         ],
         "bounds": {"quick": {"predecessors": 1}, "thorough": {"predecessors": 2}},
         "out": ["json.Decoder's real buffering policy (the model allows any read length >= 1, a superset)", "limits outside [256, 4096]"],
